@@ -218,4 +218,37 @@ def FormattedString (s : List Nat) : Prop :=
     (∀ c, rest[5]? = some c → LangString c) ∧
     s = [99, 112, 101, 58, 50, 46, 51] ++ (part :: rest).flatMap fun c => 58 :: c
 
+/-! ### URI binding of a value (NISTIR 7695 §6.1.2: transform_for_uri, pct_encode)
+
+  Letters, digits and the underscore pass unchanged; a quoted character is
+  percent-encoded, except the hyphen and the period, which are written as they
+  are; the unquoted `?` becomes `%01` and the unquoted `*` becomes `%02`. -/
+
+def hexDigit (n : Nat) : Nat := if n < 10 then 48 + n else 87 + n
+
+def pctEncode (c : Nat) : List Nat := [37, hexDigit (c / 16), hexDigit (c % 16)]
+
+def transformURIAux (esc : Bool) : List Nat → List Nat
+  | [] => []
+  | c :: rest =>
+    if esc then (if c = 45 ∨ c = 46 then [c] else pctEncode c) ++ transformURIAux false rest
+    else if c = 92 then transformURIAux true rest
+    else if c = 63 then 37 :: 48 :: 49 :: transformURIAux false rest
+    else if c = 42 then 37 :: 48 :: 50 :: transformURIAux false rest
+    else c :: transformURIAux false rest
+
+def transformURI (v : List Nat) : List Nat := transformURIAux false v
+
+def lowerAlnumC (c : Nat) : Bool := (48 ≤ c && c ≤ 57) || (97 ≤ c && c ≤ 122)
+
+/-- A value string a URI can carry (URIs do not preserve case): lower-case
+    letters, digits, underscore and the special characters unquoted; backslash,
+    special characters, punctuation, hyphen and period quoted. -/
+def uriValueAux (esc : Bool) : List Nat → Bool
+  | [] => !esc
+  | c :: rest =>
+    if esc then (c == 92 || c == 42 || c == 63 || c == 45 || c == 46 || puncC c) && uriValueAux false rest
+    else if c = 92 then uriValueAux true rest
+    else (lowerAlnumC c || c == 95 || c == 63 || c == 42) && uriValueAux false rest
+
 end ClairModel.CpeSpec
